@@ -13,7 +13,7 @@ import sys
 import numpy as np
 
 from .. import circmon
-from ..gen import Builder
+from ..gen import Builder, equivalent_variant
 from .common import drain_into, merge_stats, setup
 
 PROPERTY = "C19"
@@ -164,6 +164,14 @@ def run(ctx):
         except Exception as e:  # noqa: BLE001
             ctx.count("construction_raised:" + type(e).__name__)
             circmon.drain()
+            continue
+        circmon.drain()
+        try:
+            c, variant = equivalent_variant(c, rng)
+            log.append(["presented_as", variant])
+            ctx.bucket("circuit_presented_as:" + variant)
+        except Exception as e:  # noqa: BLE001
+            ctx.count("variant_raised:" + type(e).__name__)
             continue
         circmon.drain()
         numbered = c.n_modes - len(c._internal_modes)
